@@ -260,6 +260,18 @@ func c03(args []string) {
 			pool = append(pool, b)
 		}
 	}
+	// boundary corpus (deterministic, always first): extreme record sizes and every declared size / base type against the
+	// profile's own type for a few well-known fields
+	for bi, b := range boundaryInputs() {
+		stat("boundary_inputs", 1)
+		for _, why := range allEntryPoints(b, r) {
+			emitJSON("FAIL", "", map[string]any{"kind": "entry-point", "why": why, "bytes_len": len(b), "bytes": fmt.Sprintf("%x", b[:minInt(len(b), 2000)]), "boundary": true})
+		}
+		if len(b) <= 200 && bi%3 == int(c.seed%3) {
+			res := decodeBytes(b, true, true)
+			emit("CASE", fmt.Sprintf("(%s, %s, %s, %s)", coqBool(true), coqBool(true), coqBytes(b), coqDecodeResult(res)))
+		}
+	}
 	for i := 0; i < n; i++ {
 		var b []byte
 		switch r.intn(10) {
@@ -297,4 +309,43 @@ func c03(args []string) {
 			emit("SAMPLE", fmt.Sprintf("%d bytes: %x...", len(b), b[:minInt(len(b), 40)]))
 		}
 	}
+}
+
+// boundaryInputs: hand-built CRC-valid sequences at the limits the decoders' fixed buffers and size guards are written for.
+func boundaryInputs() [][]byte {
+	var out [][]byte
+	// (1) the largest possible message: 255 fields and 255 developer fields of 255 bytes each, then one data record
+	for _, nf := range []int{255, 254} {
+		def := []byte{0x60, 0, 0, 0xFF, 0xFE, byte(nf)}
+		for i := 0; i < nf; i++ {
+			def = append(def, byte(i), 255, 0x0D)
+		}
+		def = append(def, byte(nf))
+		for i := 0; i < nf; i++ {
+			def = append(def, byte(i), 255, 0)
+		}
+		rec := append(def, 0x00)
+		rec = append(rec, make([]byte, nf*255*2)...)
+		out = append(out, rawSeq(rec))
+	}
+	// (2) declared size x declared base type, for fields whose profile type is wider / different
+	type fld struct{ mesg, num byte }
+	baseTypes := []byte{0x00, 0x01, 0x02, 0x83, 0x84, 0x85, 0x86, 0x07, 0x88, 0x89, 0x0A, 0x8B, 0x8C, 0x0D, 0x8E, 0x8F, 0x90, 0x13, 0x87}
+	for _, f := range []fld{{20, 253}, {20, 0}, {20, 5}, {0, 3}, {0, 0}, {20, 8}, {132, 9}, {78, 0}} {
+		for size := 0; size <= 9; size++ {
+			for _, bt := range baseTypes {
+				for _, arch := range []byte{0, 1} {
+					rec := []byte{0x40, 0, arch, f.mesg, 0, 1, f.num, byte(size), bt, 0x00}
+					if arch == 1 {
+						rec[3], rec[4] = 0, f.mesg
+					}
+					for i := 0; i < size; i++ {
+						rec = append(rec, byte(0x11*(i+1)))
+					}
+					out = append(out, rawSeq(rec))
+				}
+			}
+		}
+	}
+	return out
 }
